@@ -40,6 +40,25 @@ class Boom(Exception):
     """Raised by the body."""
 
 
+_OWNER = [0]
+
+
+def _tmp_base() -> Optional[str]:
+    """Where the per-execution tempfile.mkdtemp() directories are made.  $VERIF_C16_TMP if set; else /dev/shm when it is
+    usable (tmpfs: on this image /tmp is a virtio disk on which mkdir/unlink cost ~2 ms each *aggregated over 16 workers*,
+    i.e. minutes per tier of pure journal waiting); else the system temporary directory (tempfile's default)."""
+    b = os.environ.get('VERIF_C16_TMP')
+    if b:
+        return b
+    if os.path.isdir('/dev/shm') and os.access('/dev/shm', os.W_OK | os.X_OK):
+        return '/dev/shm'
+    return None
+
+
+def _tmp_prefix() -> str:
+    return 'c16-%d-' % (_OWNER[0] or os.getpid())
+
+
 # --------------------------------------------------------------------------------------------
 # worlds
 
@@ -182,7 +201,7 @@ def _execute(files: list, api: str, sp: str, as_path: bool, edit: list, st: Opti
                  'added': {}, 'skipped': []}
     parser = docs.P()
     ed = editor_lib.Editor(parser)
-    top = os.path.realpath(tempfile.mkdtemp(prefix='c16-'))
+    top = os.path.realpath(tempfile.mkdtemp(prefix=_tmp_prefix(), dir=_tmp_base()))
     old_cwd = os.getcwd()
     try:
         world = os.path.join(top, 'dir')
@@ -316,8 +335,8 @@ def _judge(files: list, api: str, sp: str, as_path: bool, edit: list, st: Option
     before, after = obs['before'], obs['after']
     visited, nomatch = expected_visit(files) if api == 'rec' else (['main.bean'], [])
 
-    def fail(key: str, text: str) -> None:
-        res.fail(key, what + text, case1)
+    def fail(key: str, text: str) -> None:       # the random directory name must not make the text non-deterministic
+        res.fail(key, (what + text).replace(os.path.dirname(obs['world']), '<tmp>'), case1)
 
     # -- entry
     if obs['entry_exc'] is not None:
@@ -447,7 +466,8 @@ def _judge(files: list, api: str, sp: str, as_path: bool, edit: list, st: Option
     if bad:
         return None
     res.outcomes['block-completed:' + ('changes-written' if (edit or st) else 'nothing-to-write')] += 1
-    return ('done', core.h64(sorted((p, v[0]) for p, v in af.items())))
+    absdir = obs['world'].encode()
+    return ('done', core.h64(sorted((p, v[0].replace(absdir, b'{ABS}')) for p, v in af.items())))
 
 
 def _run_errline(case: dict) -> core.CaseResult:
@@ -689,7 +709,14 @@ def main(run: core.Run) -> None:
         'directories left empty by a deletion are expected to stay',
     ]
     run.log(f'{len(items)} cases, {sum(len(c.get("sp", [])) for c in items)} executions planned')
-    run.run_cases(run_case, items, 'worlds', chunk=max(20, min(400, len(items) // 400)))
+    _OWNER[0] = os.getpid()
+    try:
+        run.run_cases(run_case, items, 'worlds', chunk=max(20, min(400, len(items) // 400)))
+    finally:        # directories of workers that were killed in mid-case (each execution removes its own in a finally block)
+        import glob
+        for d in glob.glob(os.path.join(_tmp_base() or tempfile.gettempdir(), _tmp_prefix() + '*')):
+            shutil.rmtree(d, ignore_errors=True)
+    run.extra['temporary_directories_under'] = _tmp_base() or tempfile.gettempdir()
     cs = sorted(int(k.split('=')[1]) for k in run.total.counters if k.startswith('include-error-line-c='))
     run.extra['include_error_line_c'] = cs[0] if len(cs) == 1 else cs
     run.extra['include_error_line_minus_0based_line_index'] = sorted(
